@@ -388,7 +388,8 @@ zif_open(const char *file)
 		return NULL;
 	} else if (fstat(fd, &st) < 0) {
 		goto cout;
-	} else if (st.st_size <= 20) {
+	} else if ((size_t)st.st_size < sizeof(struct zih_s)) {
+		/* not even a header */
 		goto cout;
 	}
 
@@ -420,7 +421,12 @@ zif_open(const char *file)
 		hds += RDU32(hdr + offsetof(struct zih_s, tzh_ttisstdcnt));
 		hds += RDU32(hdr + offsetof(struct zih_s, tzh_ttisgmtcnt));
 
-		if (UNLIKELY(memcmp(hds, TZ_MAGIC, 4U))) {
+		if (UNLIKELY(hds < hdr || (size_t)(hds - map) > (size_t)st.st_size ||
+			     (size_t)st.st_size - (size_t)(hds - map) <
+			     sizeof(struct zih_s))) {
+			/* second header would be outside the file */
+			goto unmp;
+		} else if (UNLIKELY(memcmp(hds, TZ_MAGIC, 4U))) {
 			goto unmp;
 		}
 		hdr = hds;
@@ -431,6 +437,19 @@ zif_open(const char *file)
 		break;
 	default:
 		goto unmp;
+	}
+	/* make sure transitions, their types and the type table, i.e. all
+	 * we are about to read, are inside the file */
+	with (const size_t tsz =
+	      hdr[offsetof(struct zih_s, tzh_version)] ? 8U : 4U,
+	      left = (size_t)st.st_size - (size_t)(hdr - map) -
+	      sizeof(struct zih_s)) {
+		if (UNLIKELY(tmp.ntr > left / (tsz + 1U) ||
+			     tmp.nty > (left - tmp.ntr * (tsz + 1U)) / 6U ||
+			     /* and there must be a local time type */
+			     !tmp.nty)) {
+			goto unmp;
+		}
 	}
 	/* alloc space, don't read leaps just transitions and types */
 	res = malloc(sizeof(*res) +
@@ -480,6 +499,13 @@ zif_open(const char *file)
 	/* clean up */
 	munmap(map, st.st_size);
 	close(fd);
+	/* types must index the type table */
+	for (size_t i = 0U; i < res->ntr; i++) {
+		if (UNLIKELY(res->tys[i] >= res->nty)) {
+			free(res);
+			return NULL;
+		}
+	}
 	/* compactify, we disallow transitions to the same type */
 	real_ntr += res->ntr > 0U;
 	for (size_t i = 1U; i < res->ntr; i++) {
